@@ -23,6 +23,9 @@ answered"): requester → `MetadataWorker` (producer) → merge-channel slot →
                      (which fetches, too) follows at once - still `fetching`.
 * `merge op`       ← the other `send_update` calls (topology / client routes / status hints: 666, 679, 806, 823); a
                      `SendError` stops the metadata worker (`return ControlFlow::Break(())`).
+* `mergeEstab op`  ← the same sends made while an establishment attempt is running (`fetch_on_candidate` drains server
+                     events, 461-480): there the `Break` is deliberately ignored - a `SendError` applies nothing and the
+                     producer continues (a failing attempt then still answers the pending request with the error).
 * `consumerTake`   ← `self.metadata_updates.recv()` (cluster/worker.rs:325) + `apply_metadata_update` up to its awaits
                      (392-468): the update has left the slot, its reply channels are held by the running handler (a `select!`
                      branch body runs to completion before the next `recv`).
@@ -71,6 +74,7 @@ inductive Ev where
   | fetchErrNoCc
   | fetchErrOnCc
   | merge (op : Op)
+  | mergeEstab (op : Op)
   | consumerTake
   | consumerFinish
   | consumerGone
@@ -114,6 +118,10 @@ def step (s : Flow) : Ev → Flow
     if s.producerGone then s
     else if s.consumerGone then stopProducer s
     else { s with slot := apply s.slot (stripRefresh op) }
+  | .mergeEstab op =>
+    -- a server event handled DURING establishment: `fetch_on_candidate` ignores the `Break` of `handle_server_event`
+    -- (metadata/worker.rs:469-477) - after a `SendError` nothing is applied and the producer goes on
+    if s.producerGone || s.consumerGone then s else { s with slot := apply s.slot (stripRefresh op) }
   | .consumerTake =>
     if s.consumerGone || s.busy then s else
     match s.slot with
